@@ -214,6 +214,50 @@ def main():
             imp_event(name, e_in, e_out, "parallel")
             add({"ev": "parallel", "entry": k, "data": e_in["Diff_formula"], "same": same,
                  "parallel": str(e_out.get("new_reaction")), "single": str(one.get("new_reaction"))})
+    # RuleBasedMethod.run on multi-row batches: rows whose imbalances are near-twins (the same elements, another charge;
+    # one compound twice vs its dimer) in one call, in several orders; every row the stage rewrites must come out
+    # exactly balanced and keep its own molecules
+    from synrbl.rule_based import RuleBasedMethod
+    from synrbl.SynProcessor import CheckCarbonBalance
+    groups = {}
+    for rec in dbs["rules_manager"]:
+        c = oracle.comp(rec["smiles"])
+        if c is None:
+            continue
+        d, q = c
+        if sum(n for el, n in d.items() if el != "H") > 4:
+            continue
+        for k in (1, 2):
+            key = tuple(sorted((el, n * k) for el, n in d.items()))
+            groups.setdefault(key, {}).setdefault(q * k, ".".join([rec["smiles"]] * k))
+    twins = [sorted(v.items()) for v in groups.values() if len(v) >= 2]
+    rng.shuffle(twins)
+    rbm = RuleBasedMethod("id", "reaction", "reaction", n_jobs=1)
+    nb = 0
+    for tw in twins[: 25 if tier == "quick" else 400]:
+        spect = rng.choice(["CCO", "CC(=O)O", "c1ccccc1", "CCN"])
+        rxs = []
+        for q, smi in tw:
+            rxs.append("%s.%s>>%s" % (spect, smi, spect))      # missing on the product side
+            rxs.append("%s>>%s.%s" % (spect, spect, smi))      # missing on the reactant side
+        rxs += ["CCBr.[OH-]>>CCO", "CCO>>CCO"]
+        for order in range(2):
+            rng.shuffle(rxs)
+            rows = [{"id": k, "reaction": r} for k, r in enumerate(rxs)]
+            rows = CheckCarbonBalance(rows, rsmi_col="reaction", symbol=">>", atom_type="C", n_jobs=1).check_carbon_balance()
+            crashed = ""
+            try:
+                out = rbm.run([dict(r) for r in rows])
+            except Exception as ex:
+                out, crashed = [dict(r) for r in rows], repr(ex)[:200]
+            nb += 1
+            for r_in, r_out in zip(rows, out):
+                o = r_out.get("reaction", "")
+                fi, fo = oracle.reaction_facts(r_in["reaction"]), oracle.reaction_facts(o)
+                kept = bool(fo["parses"]) and all(fo["l"].count(m) >= fi["l"].count(m) for m in fi["l"]) and \
+                    all(fo["r"].count(m) >= fi["r"].count(m) for m in fi["r"])
+                add({"ev": "rbm", "batch": nb, "input": r_in["reaction"], "output": o, "changed": o != r_in["reaction"],
+                     "balanced_out": bool(fo["parses"]) and oracle.balanced(o) is True, "kept": kept, "crashed": crashed})
     # RuleConstraint.fit on the solved entries (+ handcrafted product sides with halogens)
     extra = []
     for prod in ("CCOCC.ClCl", "CCOCC.BrBr", "CCOCC.ClBr", "CCOCC.Cl", "CCOCC.[Cl-]", "CCOCC.II", "CCOCC.FF",
